@@ -1612,7 +1612,8 @@ sub_mul_int(Type& to, const Type x, const Type y, Rounding_Dir dir) {
     }
     return assign_nan<To_Policy>(to, V_UNKNOWN_NEG_OVERFLOW);
   case 1:
-    if (to <= 0) {
+    // Note: with `to == 0' the result may be exactly the minimum.
+    if (to < 0) {
       return set_neg_overflow_int<To_Policy>(to, dir);
     }
     return assign_nan<To_Policy>(to, V_UNKNOWN_POS_OVERFLOW);
